@@ -97,7 +97,8 @@ func (r *MMapReader) SeekNext(offset uint64) (uint64, []byte, error) {
 				}
 			}
 			if ix-i < len(MagicNumberSeparatorLongBytes) {
-				i = ix + 1
+				// only advance by one: the byte that ended a partial match may itself start the real marker
+				i++
 				continue
 			}
 
